@@ -397,6 +397,9 @@ def report(ctx, why, rec, component=None, case=None, kind="case"):
     """Report one failing observation: known finding or violation (with replay file)."""
     whys = why if isinstance(why, list) else [why]
     for w in whys:
+        if w == "notrun":
+            ctx.skipped += 1
+            continue
         if w.startswith("harness_panic"):
             raise ToolError("harness failure on %s: %s" % (json.dumps(case)[:300], w))
         f = classify(ctx, w, rec)
